@@ -43,6 +43,15 @@ def edit_page(rng, text, allow_weird):
             md = ""                      # the user removes the modify-date word (known finding)
             rest = rest + " second"
         lines[i] = kind + pr + md + zid + rest
+    # a priority-only change (or removal) on a done / cancelled todo: its text form does not show the priority
+    closed = [i for i in idx if i < len(lines) and ITEM.match(lines[i]) and ITEM.match(lines[i]).group(1) in "x~"
+              and ITEM.match(lines[i]).group(4)]
+    if closed and rng.random() < 0.35:
+        i = rng.choice(closed)
+        m = ITEM.match(lines[i])
+        kind, pr, md, zid, rest = m.group(1), m.group(2) or "", m.group(3) or "", m.group(4), m.group(5) or ""
+        new_pr = rng.choice([p for p in [""] + [" P%d" % k for k in range(10)] if p != pr and not (p == "" and pr == " P3") and not (p == " P3" and pr == "")])
+        lines[i] = kind + new_pr + md + zid + rest
     r = rng.random()
     if r < 0.3:
         # a brand new note at the end of the first block
@@ -83,8 +92,10 @@ def run_history(eng, rng, oc, allow_weird):
                 try:
                     Z.db_reindex(d)
                 except Exception as e:  # noqa: BLE001
-                    oc.count("reindex_exception_" + type(e).__name__)
-                    return True
+                    oc.spec_fail.append(({"day": day.isoformat(), "before": before_files, "edited": edited},
+                                         "db reindex raised %s: %s" % (type(e).__name__, str(e)[:200]),
+                                         "db reindex succeeds on well-formed pages", None))
+                    return False
                 after_files = W.user_files(d)
                 new_index = W.dump_index(d)
                 Z.db_reindex(d)
